@@ -370,6 +370,8 @@ Proof.
     + apply inv_grow; [exact Hi|lia|]. unfold iadd_list_amount. rewrite Cn. reflexivity.
   - contradiction.
   - destruct Ho. now apply inv_register.
+  - unfold do_export_shape. destruct (lookup a (attrs t)) as [at_|]; [|exact Hi].
+    destruct (ast at_); [destruct (fill_rows _ _ _ _ _)|]; exact Hi.
 Qed.
 
 Lemma inv_init c : inv (init c).
@@ -409,7 +411,7 @@ Proof.
   - unfold step in E. destruct o; simpl in E;
       try (unfold grow in E; inversion E; reflexivity);
       unfold do_create, do_set, do_get, do_mut, do_clear_attr, do_as_array, do_update, do_mut_arr, do_contains,
-        do_create_sized, do_register, do_get in E;
+        do_create_sized, do_register, do_export_shape, do_get in E;
       repeat (match type of E with context [match ?x with _ => _ end] => destruct x; try discriminate E end);
       try discriminate E; try (unfold grow in E; inversion E; reflexivity).
   - destruct Hi' as [_ [H _]]. intros a at_ La. specialize (H _ _ La). destruct H as [_ [_ H]].
